@@ -212,6 +212,15 @@ func editResync(r *Run) {
 		akind = ckFewDuplicates
 		r.Probe("repeated-slices")
 	}
+	if r.SweepCase < 0 && akind == ckRandom && c.N1 >= 2*c.S && t.Bool(1, 8, "zero-led") {
+		// sparse content: slices that are zeros up to their last bytes; the
+		// inserted bytes are then zeros as well, half of the time
+		akind = ckZeroLed
+		if !c.Del && c.Rename == 0 && t.Bool(1, 2, "zeros-inserted") {
+			c.Zeros = true
+		}
+		r.Probe("zero-led-slices")
+	}
 	a := expandContent(akind, seed, c.N1, c.S)
 	b := expandContent(ckRandom, seed^0x5555, c.S+1+int(seed%3), c.S)
 	if c.Rename == 3 {
@@ -302,8 +311,10 @@ func editResync(r *Run) {
 			}
 			edited = append(append(append([]byte(nil), a[:c.P]...), ins...), a[c.P:]...)
 			desc = fmt.Sprintf("insert %d bytes at %d", c.L, c.P)
-			if c.Zeros {
+			if c.Zeros && c.P == len(a) {
 				desc = fmt.Sprintf("append %d zero bytes", c.L)
+			} else if c.Zeros {
+				desc = fmt.Sprintf("insert %d zero bytes at %d", c.L, c.P)
 			}
 			if c.P%c.S == 0 {
 				r.Probe("insert-on-slice-boundary")
